@@ -70,7 +70,32 @@ Theorem C09_bounded_work_after_stop : forall pollp stop_at bypass g depth t rt r
   end.
 Proof. intros. apply search_prompt. Qed.
 
+(* the deadline half, in the main-loop model (Model/Uci.v): a search started with a time budget is told to stop no later than the poll that first finds
+   the budget used up (poll 0 when the budget is 0), whatever arrives on the input meanwhile -- and from that poll on the stop is reported at every
+   poll, so all the theorems above (frame, bounded work) apply with that schedule *)
+From JV Require Import Model.Fen Model.Uci.
+Theorem C09_an_expired_deadline_stops_the_search : forall dl max_time input,
+  max_time <> (-1)%Z ->
+  exists s, stop_index dl max_time input = Some s /\ (s <= if (max_time =? 0)%Z then O else dl)%nat.
+Proof.
+  intros dl max_time input NE. unfold stop_index, deadline_poll.
+  destruct (Z.eqb_spec max_time (-1)) as [E|_]; [contradiction|].
+  destruct (max_time =? 0)%Z; destruct (stop_poll input) as [s|]; eexists; split; try reflexivity; auto using Nat.le_min_r.
+Qed.
+Theorem C09_session_search_stops_at_the_deadline : forall extra dl u depth max_time input,
+  max_time <> (-1)%Z ->
+  exists s, (s <= if (max_time =? 0)%Z then O else dl)%nat /\
+    session_search extra dl u depth max_time input =
+    chess_search (c_pollp extra) (fun k => Nat.leb s k) false (u_game u) depth (u_tt u)
+                 (u_rep u ++ repeat 0%N (N.to_nat REP_CAPACITY - List.length (u_rep u)))%list (List.length (u_rep u)).
+Proof.
+  intros extra dl u depth max_time input NE. destruct (C09_an_expired_deadline_stops_the_search dl max_time input NE) as (s & E & L).
+  exists s. split; [exact L|]. unfold session_search. rewrite E. reflexivity.
+Qed.
+
 Print Assumptions C09_frame.
+Print Assumptions C09_an_expired_deadline_stops_the_search.
+Print Assumptions C09_session_search_stops_at_the_deadline.
 Print Assumptions C09_frame_per_call.
 Print Assumptions C09_cadence.
 Print Assumptions C09_polls_every_16384_nodes.
